@@ -103,6 +103,17 @@ def last_pos(text, pat, what):
     return ms[-1]
 
 
+def loop_spans(text):
+    """(start, end) of every loop construct: `for … {…}`, `while … {…}`, `loop {…}` and the closure
+    argument of `.for_each(…)` / `.try_for_each(…)` / `.for_each_concurrent(…)`"""
+    spans = []
+    for m in re.finditer(r"\b(?:for|while|loop)\b[^{;]*\{", text):
+        spans.append((m.start(), close_of(text, m.end())))
+    for m in re.finditer(r"\.\s*(?:try_)?for_each\w*\s*\(", text):
+        spans.append((m.start(), close_of(text, m.end())))
+    return spans
+
+
 CALL = re.compile(r"(?:\bself\s*\.\s*|\bSelf::\s*|(?<![\w.:]))([A-Za-z_][A-Za-z0-9_]*)\s*(?:::<[^>()]*>)?\(")
 
 
@@ -379,6 +390,9 @@ if not r_removes:
 # values are removed before they are re-inserted; the id is registered after the re-index
 rec_images_first = min(r_removes) < r_fetch
 rec_remove_before_reinsert = any(r_fetch < p < r_insert for p in r_removes)
+# two global passes: the pass that un-indexes the recorded images (the removal that precedes any fetch) is
+# complete before the first re-index — no loop contains both calls (a fused per-document pass would)
+rec_two_passes = rec_images_first and not any(a <= min(r_removes) < e and a <= r_insert < e for a, e in loop_spans(rcn))
 rec_register_after = r_insert < pos(rcn[r_insert:], r"\bdoc_ids\s*\.\s*write\s*\(\s*\)\s*\.\s*add\s*\(", "reconcile_mutation_intents: id registration") + r_insert
 rec_gone_unregisters = bool(re.search(r"\bdoc_ids\s*\.\s*write\s*\(\s*\)\s*\.\s*remove\s*\(", rcn[r_insert:]))
 scn = cexp("auto_repair_indexes")
@@ -483,6 +497,11 @@ def recoverLoadsFirst : Bool := {b(rec_load_first and rec_replay_reconciles)}
 document is consulted; the stored document's own values are removed before they are re-inserted; the id is
 registered after the re-index; a document that is gone is unregistered -/
 def replayImagesFirst : Bool := {b(rec_images_first)}
+/-- … and that un-index pass over ALL intents is complete before the first document is re-indexed: no loop
+contains both the un-indexing of the images and the re-index (two passes in sequence, not one fused pass per
+document — in which a lower-id taker would be re-indexed while the stale posting of a higher-id releaser is
+still there) -/
+def replayTwoGlobalPasses : Bool := {b(rec_two_passes)}
 def replayRemoveBeforeReinsert : Bool := {b(rec_remove_before_reinsert)}
 def replayRegistersAfterReindex : Bool := {b(rec_register_after and rec_gone_unregisters)}
 /-- `remove_document_from_indexes` removes from all three families; `insert_document_into_indexes` ends at the
@@ -510,6 +529,7 @@ theorem gen_remove_shape : (remIndexesBeforeDelete && remDeleteBeforeIds) = true
 theorem gen_btree_shape : (wrapperEqualIsNoop && wrapperInsertBeforeRemove && batchInsertBeforeRemove &&
     insertArrayPrecheck && insertArrayRecheckInEntry && insertCheckInEntry) = true := by decide
 theorem gen_recover_order : recoveryOrder = [0, 1, 2] := by decide
+theorem gen_replay_two_passes : replayTwoGlobalPasses = true := by decide
 theorem gen_recover_shape : (recoverLoadsFirst && replayImagesFirst && replayRemoveBeforeReinsert &&
     replayRegistersAfterReindex && removeDocAllFamilies && reinsertStopsAtFirstRefusal && repairIsBestEffort &&
     scanStartsAboveCheckpoint && openEndsWithFlush && intentsRetiredLast && intentBeforeIndexes) = true := by decide
